@@ -129,7 +129,7 @@ def shape(canon: str) -> Dict[str, Any]:
 def _with_shapes(e: Any) -> Any:
     if isinstance(e, dict):
         out = {k: _with_shapes(v) for k, v in e.items()}
-        if "type" in e and "name" in e and isinstance(e["type"], str):
+        if "type" in e and "name" in e and isinstance(e["type"], str) and e["type"] is not None:
             out["shape"] = shape(e["type"])
         return out
     if isinstance(e, list):
